@@ -91,7 +91,7 @@ type Case struct {
 
 func (c Case) pipeMode() bool { return strings.HasSuffix(c.Wrap, "trypipe") }
 
-var exits = []int{0, 0, 1, 1, 2, 7, 255}
+var exits = []int{0, 0, 0, 0, 0, 1, 1, 2, 7, 255}
 
 func genStage(t *rapid.T, first bool, tag string) Stage {
 	kinds := []string{"vx", "vx", "vx", "vx"}
@@ -440,9 +440,6 @@ func classify(c Case) core.Class {
 	for i, u := range c.Units {
 		if u.Join == "||" && i > 0 && c.Units[i-1].Join == "||" {
 			oror = true
-		}
-		if u.Join == "||" && i == 1 {
-			// `a || b || c`: the first unit has no joiner
 		}
 		if len(u.Stages) > 1 {
 			pipes++
